@@ -18,4 +18,5 @@ def run(repo, res, tier):
     multidict.rule_p3(repo, res)
     multidict.rule_p4(repo, res)
     multidict.rule_p5(repo, res)
+    multidict.rule_p6(repo, res)
     multidict.rule_m2(repo, res)
